@@ -25,6 +25,9 @@ def render_styled(spec, cls_suffix=""):
         L += ["import enum", f"class StEnum_{uid}(enum.Enum):"]
         for s in spec["states"]:
             L.append(f"    {s['id']} = {s['value']['expr'] if s.get('value') else repr(s['id'])}")
+        if st.get("enum_alias", True):
+            s0 = spec["states"][-1]
+            L.append(f"    alias_of_last = {s0['value']['expr'] if s0.get('value') else repr(s0['id'])}")
         L.append("")
     base_events = list(st.get("base_events") or [])
     explicit = [t for t in spec["transitions"] if t.get("from_any") is None]
@@ -33,7 +36,7 @@ def render_styled(spec, cls_suffix=""):
     strict = spec["opts"].get("strict")
 
     def state_lines(indent="    "):
-        out = []
+        out = [f"{indent}{e} = Event(name={e!r})" for e in spec["events"] if evstyle.get(e) == "kw_obj"]
         if states_style == "attrs":
             for s in spec["states"]:
                 out.append(f"{indent}{s['id']} = State({', '.join(state_kwargs(spec, s))})")
@@ -65,6 +68,9 @@ def render_styled(spec, cls_suffix=""):
         if not evs:
             return None
         styles_ = {evstyle[e] for e in evs}
+        if "kw_obj" in styles_:
+            objs = [e if evstyle[e] == "kw_obj" else f"Event({e!r})" for e in evs]
+            return "event=" + (objs[0] if len(objs) == 1 else "[" + ", ".join(objs) + "]")
         if "kw_list" in styles_ and len(evs) > 1:
             return "event=[" + ", ".join(repr(e) for e in evs) + "]"
         if "kw_event" in styles_ and len(evs) == 1:
